@@ -423,32 +423,33 @@ impl Exp {
     /// # Returns
     /// String representation with appropriate parentheses based on operator precedence
     pub fn to_string_with_precedence(&self, last_operator: BinOp) -> String {
-        let last_precedence = last_operator.precedence();
+        self.operand_to_string(last_operator, false)
+    }
+
+    /// Renders `self` as the left or right operand of `parent`, parenthesised
+    /// when the parser would otherwise group it differently: the operand binds
+    /// weaker than the parent, or equally and sits on the side the
+    /// associativity does not favour (`x - (y - z)`, `x / (y * z)`).
+    fn operand_to_string(&self, parent: BinOp, is_rhs: bool) -> String {
         match self {
             Exp::BinOp(op, lhs, rhs) => {
-                let string_lhs = lhs.to_string_with_precedence(*op);
-                let string_rhs = rhs.to_string_with_precedence(*op);
-                let precedence = op.precedence();
-                if precedence < last_precedence {
-                    format!("({} {} {})", string_lhs, op, string_rhs)
+                let rendered = format!(
+                    "{} {} {}",
+                    lhs.operand_to_string(*op, false),
+                    op,
+                    rhs.operand_to_string(*op, true)
+                );
+                let same_level_needs_parens = if is_rhs {
+                    parent.is_left_associative()
                 } else {
-                    //TODO improve this
-                    match last_operator {
-                        BinOp::Add
-                        | BinOp::Mul
-                        | BinOp::Div
-                        | BinOp::And
-                        | BinOp::Or
-                        | BinOp::Xor
-                        | BinOp::Implies
-                        | BinOp::Iff => {
-                            format!("{} {} {}", string_lhs, op, string_rhs)
-                        }
-                        BinOp::Sub => match rhs.is_leaf() {
-                            true => format!("{} {} {}", string_lhs, op, string_rhs),
-                            false => format!("{} {} ({})", string_lhs, op, string_rhs),
-                        },
-                    }
+                    !op.is_left_associative()
+                };
+                let needs_parens = op.precedence() < parent.precedence()
+                    || (op.precedence() == parent.precedence() && same_level_needs_parens);
+                if needs_parens {
+                    format!("({})", rendered)
+                } else {
+                    rendered
                 }
             }
             _ => self.to_string(),
@@ -570,9 +571,8 @@ impl fmt::Display for Exp {
                     .join(", ")
             ),
             Exp::BinOp(operator, lhs, rhs) => {
-                //TODO: add parenthesis when needed
-                let string_lhs = lhs.to_string_with_precedence(*operator);
-                let string_rhs = rhs.to_string_with_precedence(*operator);
+                let string_lhs = lhs.operand_to_string(*operator, false);
+                let string_rhs = rhs.operand_to_string(*operator, true);
                 format!("{} {} {}", string_lhs, operator, string_rhs)
             }
             Exp::UnOp(op, exp) => {
